@@ -549,7 +549,7 @@ def solve(ob, timeout_ms=20000):
         ob.status = "unsat" if r != z3.unsat else "vacuous"
         return ob
     if g is True or (L.is_z3(g) and z3.is_true(g)):
-        ob.status, ob.solver = "unsat", "static"
+        ob.status, ob.solver = "unsat", getattr(ob, "backend", "static")
         return ob
     if getattr(ob, "inconclusive", False) and (g is False or (L.is_z3(g) and z3.is_false(g))):
         # a shape / may-analysis obligation that did not recognise the code: not a refutation
